@@ -11,6 +11,8 @@
 #define BEGIN_PUBLISH
 #define END_PUBLISH
 #endif
+#include <stdint.h>
+#include <cstddef>
 extern int g_trace;
 template<class T>
 class Pair {
@@ -54,5 +56,17 @@ PUBLISHED:
   int count;
 public:
   int _dd;
+};
+// pointer-sized and fixed-width integer typedefs, by value and by const reference
+class Tags {
+PUBLISHED:
+  Tags(int t) : _t((uintptr_t)(unsigned)t) {}
+  uintptr_t set_tag(const uintptr_t &t) { g_trace = 70; uintptr_t old = _t; _t = t; return old ^ (t >> 3); }
+  const uintptr_t &tag_ref() const { g_trace = 71; return _t; }
+  intptr_t diff(const intptr_t &a, intptr_t b) const { g_trace = 72; return a ^ (b << 1) ^ (intptr_t)_t; }
+  size_t size_of(size_t n, const size_t &m) const { g_trace = 73; return n ^ (m << 2) ^ (size_t)_t; }
+  int64_t wide(const int64_t &x, uint64_t y) const { g_trace = 74; return x ^ (int64_t)(y >> 5) ^ (int64_t)_t; }
+public:
+  uintptr_t _t;
 };
 #endif
